@@ -206,9 +206,11 @@ impl Recovery {
             RecoveryPhase::CountingDuplicates { dup_acks } => {
                 // HighAck is the last sequence number fully consumed by receiver.
                 let high_ack = match tx_segs.first_seq_nr() {
-                    Some(s) => s - 1,
-                    None => {
-                        // The queue is empty, don't count ACKs.
+                    // Only data that was actually transmitted can be reported lost by duplicate
+                    // ACKs; segments that are queued but were never sent don't count.
+                    Some(s) if last_sent_seq_nr >= s => s - 1,
+                    _ => {
+                        // Nothing is in flight, don't count ACKs.
                         *dup_acks = 0;
                         // Still remember this ACK: if data is sent next, repeats of it are
                         // duplicates and must be counted from the first one.
